@@ -61,7 +61,7 @@ def build():
                 [dict(name=f"extension-{x}", path=f"/verif/harness/props/{x.lower()}.py", serves_properties=[],
                       kind_free_text=f"specification growth beyond the listed properties (DESIGN.md 10.9): `bin/check {x} quick|thorough`, same "
                                      "technique (TLC + replay + record validation); findings recorded under the id " + x)
-                 for x in ("X01", "X02", "X03") if os.path.exists(os.path.join(VERIF, "harness", "props", x.lower() + ".py"))],
+                 for x in ("X01", "X02", "X03", "X04", "X05") if os.path.exists(os.path.join(VERIF, "harness", "props", x.lower() + ".py"))],
         checks=checks,
         not_applicable=na,
         notes="See DESIGN.md. Exit codes: 0 held, 1 VIOLATION, 2 machinery failure. known_findings.json lists recorded and fixed defects.",
